@@ -173,7 +173,7 @@ CLAIMS = {
        "a receive that arrives yields the received value, a receive that finds the channel closed and drained yields nil with no error, an interruption yields ErrInterrupt; `v, ok = <-ch` assigns ok the arrived/closed flag and assigns v only when a value arrived (closed: v is not assigned at all); "
        "`for v in ch` receives from the channel it iterates, runs the body once per received value and ends without error exactly when the channel is closed and drained (or on break/return/error/interrupt); close(x) closes exactly the channel x denotes; "
        "send on a closed channel and double close are inside a recover region (trusted panic conditions of reflect.Select send cases and Value.Close, obligations shared with C01) so they surface as errors; "
-       "`go f(args)` evaluates every argument (direct path: all operands in order; reflect path: makeCallArgs completed without error) in the calling goroutine before the goroutine is started. "
+       "`go f(args)` evaluates every argument (direct path: all operands in order; reflect path: makeCallArgs completed without error) in the calling goroutine before the goroutine is started, and the direct path hands exactly those values, in order, with the caller's context to the goroutine (the operands of the go statement are the evaluated values). "
        "NOT decided and not decidable by per-function contracts: that every value sent is received exactly once in FIFO order and that pipelines deliver all items under every schedule - these are properties of Go's channels and scheduler (the language runtime is trusted); no schedules are explored.",
   note=TRUST + "Assumed: Go channel semantics (FIFO, exactly-once delivery, close semantics) as implemented by the runtime behind reflect.Select/Close; the encoding of a Select outcome in the trace (0 value arrived or send done, 1 closed, 2 interrupted) is a transcription of reflect.Select's documented results.",
   technique="contract-based deductive verification: call-site and trace postconditions on the channel evaluators, z3/cvc5",
@@ -184,7 +184,8 @@ CLAIMS = {
        "a map read never fails: a nil map, a key that cannot be converted to the key type, an unhashable key and a missing key read as nil, a present key reads the stored value; `in` is membership by vm.equal (shared with C06); "
        "WRITES - x[i] = v on a slice: in range, exactly ONE reflect store happens, into element i, of v converted to that element's type; at i == len the converted value is appended (element type of the slice) and assigned back; "
        "every error (non-numeric or out-of-range index, unassignable element, inconvertible value) leaves the container untouched: no store is made; m[k] = v writes only with a converted, hashable key and never writes the map when it fails; delete(m, k) removes (SetMapIndex with the zero Value) only a converted hashable key from the map m denotes and does not write on error. "
-       "NOT decided: slicing (2- and 3-index) and storage sharing, append through + / +=, len, string element assignment, struct fields (read back / unknown field / conversion), reference semantics on assignment and call, typed literals and make; "
+       "`a + b` / `a += b` on two slices of the same element type is exactly reflect.AppendSlice(a, b) - Go's append(a, b...) with Go's own sharing and growth rules, never a shortcut. "
+       "NOT decided: slicing (2- and 3-index) and storage sharing, append with element conversion, len, string element assignment, struct fields (read back / unknown field / conversion), reference semantics on assignment and call, typed literals and make; "
        "that the converted value HAS the declared type is reflect's Convert/MakeSlice/Zero typing (not stated as a postcondition of convertReflectValueToType beyond its identity and Go-conversion cases).",
   note=TRUST + "Assumed: reflect.Value.Index/MapIndex/Set/SetMapIndex/Append behave as documented (element i, key lookup, store, append); a reflect store is the only way the evaluators change a container (the trace records Set, SetMapIndex and Append only in functions that opt in).",
   technique="contract-based deductive verification: postconditions over the activation trace of reflect reads/stores, z3/cvc5",
@@ -192,8 +193,9 @@ CLAIMS = {
  'C11': dict(
   text="Thin, partial deductive proof of four links of the Go boundary: (1) env.DefineValue stores exactly the given reflect.Value under the name and env.GetValue returns exactly the stored one (identity; whole-map postconditions of C12); "
        "(2) convertReflectValueToType returns its argument unchanged when its type already is the target type or the target is interface{}, and otherwise - when Go's reflect says the value is convertible - returns exactly reflect's own conversion to the target type; "
-       "(3) processCallReturnValues hands back all results of a Go function: none -> nil, one -> that value, and never manufactures an error for a Go function; (4) argument building evaluates the arguments once, in order (C07) and spreads the list the last operand denotes (C20). "
-       "NOT decided: element-wise slice/array/map conversion, nil -> zero value, string -> byte/rune, pointer conversion; the callback adapter (script function as Go func); that each argument is converted to ITS parameter type in all four call shapes; several results as a list; member syntax on Go values (fields, methods, pointer receivers). "
+       "(3) processCallReturnValues hands back all results of a Go function: none -> nil, one -> that value, and never manufactures an error for a Go function; (4) argument building evaluates the arguments once, in order (C07) and spreads the list the last operand denotes (C20); "
+       "(5) member syntax on a Go struct value (directly, behind an interface or through one pointer) yields the method of that name when there is one, and otherwise the exported field of that name at the index path reflect.Type.FieldByName reports - promoted fields of embedded structs included. "
+       "NOT decided: element-wise slice/array/map conversion, nil -> zero value, string -> byte/rune, pointer conversion; the callback adapter (script function as Go func); that each argument is converted to ITS parameter type in all four call shapes; several results as a list; member WRITES, pointer-receiver methods on addressable values and copies. "
        "These need a typed model of reflect (assignability/convertibility relation, method sets) that the contracts do not have.",
   note=TRUST + "Assumed: reflect.Value.Convert is Go's conversion; reflect.Value.Type / Type.ConvertibleTo are functions of their arguments.",
   technique="contract-based deductive verification: postconditions on the conversion and result-normalisation helpers, z3/cvc5",
